@@ -36,6 +36,7 @@ from fcp.codegen import CodeGenerator
 from fcp.verifier import Verifier
 from fcp.specs.v2 import FcpV2, encode_version
 from fcp.specs.struct import Struct
+from fcp.specs.enum import Enum
 from fcp.specs.type import Type, StructType
 from fcp.specs import type
 from fcp.version import VERSION
@@ -104,6 +105,11 @@ def to_wrapper_cpp_type(fcp: FcpV2, input: Type) -> str:
     return str(ToCpp(fcp).visit(input))
 
 
+def to_enum_carrier_size(enum: Enum) -> int:
+    """Get size in bits of the C++ integer that carries an enum."""
+    return _to_highest_power_of_two(enum.get_packed_size())
+
+
 def get_matching_impls(fcp: FcpV2, protocol: str) -> List[Impl]:
     """Get impls matching a protocol."""
     return fcp.get_matching_impls_or_default(protocol)
@@ -133,6 +139,7 @@ def create_template_environment(
 
     env = jinja2.Environment(loader=loader)
     env.globals["to_wrapper_cpp_type"] = to_wrapper_cpp_type
+    env.globals["to_enum_carrier_size"] = to_enum_carrier_size
     env.globals["get_matching_impls"] = get_matching_impls
     env.globals["get_struct_from_type"] = get_struct_from_type
     env.globals["encode_version"] = encode_version
